@@ -84,4 +84,6 @@ VARIANTS = [
          expect=("C07-FORBID", "element")),
     dict(name="twin: sliced set extended with a one-element tuple", kind="twin", file=SL,
          old="            next_ix_sl = ix_sl | frozenset([ix])", new="            next_ix_sl = ix_sl.union((ix,))"),
+    dict(name="seed C07_9: per-contraction flops divided with /", kind="break", file="cotengra/slicer.py",
+         old="            new_flops = old_flops // d", new="            new_flops = old_flops / d", expect=("C07-INTCOST", "remove")),
 ]
